@@ -251,7 +251,7 @@ static int yield_only_point(int id) {
   case mythv_p_cas: case mythv_p_spin_unlock: case mythv_p_spin_lock_wait:
   case mythv_p_q_pop_check: case mythv_p_q_pop_dec: case mythv_p_q_pop_base: case mythv_p_q_pop_slot:
   case mythv_p_q_take_check: case mythv_p_q_take_inc: case mythv_p_q_take_top: case mythv_p_q_take_slot: case mythv_p_q_take_rollback:
-  case mythv_p_q_put: case mythv_p_random: case mythv_p_once_wait: case mythv_p_once_load: case mythv_p_user + 1:
+  case mythv_p_q_put: case mythv_p_random: case mythv_p_once_wait: case mythv_p_once_load: case mythv_p_user + 1: case mythv_p_ctx_save:
     return 1;
   default: return 0;
   }
